@@ -166,6 +166,9 @@ func (sos *signcryptOpenStream) processHeader(hdr *SigncryptionHeader) error {
 	}
 
 	ephemeralPub := sos.keyring.ImportBoxEphemeralKey(hdr.Ephemeral)
+	if ephemeralPub == nil {
+		return ErrBadEphemeralKey
+	}
 
 	var err error
 	sos.payloadKey, err = sos.tryBoxSecretKeys(hdr, ephemeralPub)
